@@ -472,6 +472,24 @@ impl TableTablets {
     fn new_for_test() -> Self {
         Self::new(TableSpec::borrowed("test_ks", "test_table"))
     }
+
+    #[cfg(scylla_verif)]
+    pub(crate) fn verif_dump(&self) -> Vec<crate::verif_hooks::TabletDump> {
+        self.tablet_list
+            .iter()
+            .map(|t| crate::verif_hooks::TabletDump {
+                first_token: t.first_token.value(),
+                last_token: t.last_token.value(),
+                replicas: t
+                    .replicas
+                    .all
+                    .iter()
+                    .map(|(n, s)| (n.host_id, *s))
+                    .collect(),
+                has_unresolved: t.failed.is_some(),
+            })
+            .collect()
+    }
 }
 
 /// Needed to query hashbrown::HashMap<TableSpec<'static>, TableTablets>
